@@ -1471,13 +1471,16 @@ theorem stepOp_same (s : St ℝ) (o : Op) : Same s (stepOp s o) := by
   | error _ => exact ⟨rfl, rfl, rfl⟩
 
 /-- the only well-formedness asked of a call under the strict constraint: `matchParametersValues`
-is given one value per parameter -/
+is given one value per parameter, `setFrequencies` a vector of at least `dim` entries (the C++ reads
+`probas[0 .. dim-1]` without a test: a shorter vector is read out of bounds — undefined behaviour,
+nothing can be claimed afterwards; the model answers `Err.ub`) -/
 def WellFormed (dim : Nat) : Op → Prop
   | .setPar θ => θ.length = dim - 1
+  | .setFreq p => dim ≤ p.length
   | _ => True
 
-/-- Strict constraint `]0,1[`: the invariant survives EVERY history — whatever the arguments
-(rejected calls change nothing, accepted ones re-establish it). -/
+/-- Strict constraint `]0,1[`: the invariant survives EVERY history of well-formed calls — whatever
+the values of the arguments (rejected calls change nothing, accepted ones re-establish it). -/
 theorem inv_run_strict (s : St ℝ) (h : Inv s) (ha : s.allowNull = false) (ops : List Op)
     (hw : ∀ o ∈ ops, WellFormed s.dim o) : Inv (run s ops) := by
   induction ops generalizing s with
